@@ -938,7 +938,7 @@ class MethFn(ProcFn):
     CALLEES = dict(ProcFn.CALLEES)
     CALLEES["make_netloc"] = ("make_netloc' B", [("user", "optstr", None), ("password", "optstr", None), ("host", "optstr", None),
                                                 ("port", "optint", None), ("encode", "bool", "false")], "str", False)
-    for _n in ("UNQUOTER", "PATH_UNQUOTER", "PATH_SAFE_UNQUOTER"):
+    for _n in ("UNQUOTER", "PATH_UNQUOTER", "PATH_SAFE_UNQUOTER", "QS_UNQUOTER"):
         CALLEES[_n] = ("UQ B " + _n, [("s", "str", None)], "str", False)
     CALLEES["unsplit_result"] = ("unsplit_result", [("scheme", "str", None), ("netloc", "str", None), ("url", "str", None),
                                                     ("query", "str", None), ("fragment", "str", None)], "str", False)
@@ -1037,7 +1037,8 @@ class MethFn(ProcFn):
                 return ast.copy_location(ast.Name(id=n.target.id, ctx=ast.Load()), n)
 
             def visit_Attribute(self, n):
-                if isinstance(n.value, ast.Name) and env.get(n.value.id) == "url" and n.attr in tr.PROPS:
+                if isinstance(n.value, ast.Name) and env.get(n.value.id) == "url" and (
+                        n.attr in tr.PROPS or (n.attr in tr.methods and tr.RT.get(tr.methods[n.attr], (False,))[0])):
                     tr.fresh += 1
                     nm = f"{n.attr}_{tr.fresh}"
                     binds.append(("bind", nm, (n.value.id, n.attr)))
@@ -1054,7 +1055,10 @@ class MethFn(ProcFn):
         e1 = dict(env)
         if kind == "bind":
             obj, prop = what
-            head, t = self.PROPS[prop]
+            if prop in self.PROPS:
+                head, t = self.PROPS[prop]
+            else:                       # a method of this file translated earlier, which may raise
+                head, t = "gen_" + prop.strip("_"), self.RT[self.methods[prop]][1]
             if not self.fallible:
                 raise Untranslatable("a property that may raise in a method that returns " + self.rett)
             e1[nm] = t
@@ -1184,6 +1188,7 @@ class ModFn(MethFn):
     RT = dict(MethFn.RT)
     RT["rurl"] = (True, "url")
     RT["url"] = (False, "url")
+    RT["rstr"] = (True, "str")
     CALLEES = dict(MethFn.CALLEES)
     for _n in ("QUOTER", "FRAGMENT_QUOTER", "PATH_QUOTER", "QUERY_QUOTER"):
         CALLEES[_n] = ("Q B " + _n, [("s", "str", None)], "str", False)
@@ -1225,6 +1230,69 @@ class ModFn(MethFn):
             a, ta = self.expr(e.value, env)
             if ta == "str":
                 return f"(tl {a})", "str"
+        # tuple(F(x) for x in xs)
+        if isinstance(e, ast.Call) and isinstance(e.func, ast.Name) and e.func.id == "tuple" and len(e.args) == 1 \
+                and isinstance(e.args[0], ast.GeneratorExp) and len(e.args[0].generators) == 1 \
+                and not e.args[0].generators[0].ifs and isinstance(e.args[0].generators[0].target, ast.Name):
+            g = e.args[0].generators[0]
+            xs, txs = self.expr(g.iter, env)
+            if txs == "strs":
+                e1 = dict(env)
+                e1[g.target.id] = "str"
+                body, tb = self.expr(e.args[0].elt, e1)
+                if tb == "str":
+                    return f"(map (fun {g.target.id} : str => {body}) {xs})", "strs"
+        # s.rfind("c"): the index of the last occurrence, None for Python's -1
+        if isinstance(e, ast.Call) and isinstance(e.func, ast.Attribute) and e.func.attr == "rfind" and len(e.args) == 1 and not e.keywords:
+            a, ta = self.expr(e.func.value, env)
+            if ta == "str":
+                return f"(rfind {one_char(e.args[0])} {a})", "optidx"
+        # s[i:] for an index found by rfind, s[:-len(t)] for a non-empty t
+        if isinstance(e, ast.Subscript) and isinstance(e.slice, ast.Slice) and e.slice.upper is None and e.slice.step is None \
+                and isinstance(e.slice.lower, ast.Name) and env.get(e.slice.lower.id) == "idx":
+            a, ta = self.expr(e.value, env)
+            if ta == "str":
+                return f"(drop {e.slice.lower.id} {a})", "str"
+        if isinstance(e, ast.Subscript) and isinstance(e.slice, ast.Slice) and e.slice.lower is None and e.slice.step is None \
+                and isinstance(e.slice.upper, ast.UnaryOp) and isinstance(e.slice.upper.op, ast.USub) \
+                and isinstance(e.slice.upper.operand, ast.Call) and ast.unparse(e.slice.upper.operand.func) == "len" \
+                and len(e.slice.upper.operand.args) == 1 and isinstance(e.slice.upper.operand.args[0], ast.Name) \
+                and env.get("%nonempty:" + e.slice.upper.operand.args[0].id):
+            a, ta = self.expr(e.value, env)
+            b, tb = self.expr(e.slice.upper.operand.args[0], env)
+            if ta == tb == "str":
+                return f"(take (len {a} - len {b}) {a})", "str"       # s[:-k] with k > 0
+        # ("/", *xs) / ("/",) / tuple(xs) / list(xs)
+        if isinstance(e, ast.Tuple) and e.elts and isinstance(e.elts[0], ast.Constant) and isinstance(e.elts[0].value, str):
+            if len(e.elts) == 1:
+                return f"[{lit(e.elts[0].value)}]", "strs"
+            if len(e.elts) == 2 and isinstance(e.elts[1], ast.Starred):
+                a, ta = self.expr(e.elts[1].value, env)
+                if ta == "strs":
+                    return f"({lit(e.elts[0].value)} :: {a})", "strs"
+        if isinstance(e, ast.Call) and isinstance(e.func, ast.Name) and e.func.id in ("tuple", "list") and len(e.args) == 1 and not e.keywords:
+            a, ta = self.expr(e.args[0], env)
+            if ta == "strs":
+                return a, "strs"
+        if isinstance(e, ast.Subscript) and ast.unparse(e.slice) == "1:":
+            a, ta = self.expr(e.value, env)
+            if ta == "strs":
+                return f"(tl {a})", "strs"
+        # xs[-1] / xs[0] on a list of str that the enclosing statement has checked to be non-empty
+        if isinstance(e, ast.Subscript) and isinstance(e.value, ast.Name) and env.get(e.value.id) == "strs" \
+                and ast.unparse(e.slice) in ("-1", "0") and e.value.id in getattr(self, "nonempty_checked", ()):
+            if ast.unparse(e.slice) == "-1":
+                return f"(match last_opt {e.value.id} with Some x0 => x0 | None => [] end)", "str"
+            return f"(match {e.value.id} with x0 :: _ => x0 | [] => [] end)", "str"
+        if isinstance(e, ast.IfExp) and isinstance(e.test, ast.Name) and env.get(e.test.id) == "strs" \
+                and isinstance(e.body, ast.Subscript) and ast.unparse(e.body.value) == e.test.id and ast.unparse(e.body.slice) == "-1":
+            b, tb = self.expr(e.orelse, env)
+            if tb == "str":
+                return f"(match last_opt {e.test.id} with Some x0 => x0 | None => {b} end)", "str"
+        # self.other_property translated earlier in this file (total)
+        if isinstance(e, ast.Attribute) and isinstance(e.value, ast.Name) and env.get(e.value.id) == "url" \
+                and e.attr in self.methods and self.methods[e.attr] in ("strs", "str", "bool"):
+            return f"(gen_{e.attr.strip('_')} {e.value.id})", self.methods[e.attr]
         # x.raw_parts (total in the model)
         if isinstance(e, ast.Attribute) and isinstance(e.value, ast.Name) and env.get(e.value.id) == "url" and e.attr == "raw_parts":
             return f"(raw_parts {e.value.id})", "strs"
@@ -1253,8 +1321,10 @@ class ModFn(MethFn):
         for n in ast.walk(node):
             if isinstance(n, ast.BoolOp) and isinstance(n.op, ast.And) and isinstance(n.values[0], ast.Name):
                 guarded.add(n.values[0].id)
+            if isinstance(n, ast.IfExp) and isinstance(n.test, ast.Name):
+                guarded.add(n.test.id)
         for n in ast.walk(node):
-            if isinstance(n, ast.Subscript) and isinstance(n.value, ast.Name) and env.get(n.value.id) == "str" \
+            if isinstance(n, ast.Subscript) and isinstance(n.value, ast.Name) and env.get(n.value.id) in ("str", "strs") \
                     and ast.unparse(n.slice) in ("0", "-1") and n.value.id not in guarded and n.value.id not in found:
                 found.append(n.value.id)
         return found
@@ -1269,6 +1339,33 @@ class ModFn(MethFn):
             if ast.unparse(test.left.slice) == "-1":
                 return f"(match last_opt {test.left.value.id} with Some c0 => {t} | None => false end)"
             return f"(match {test.left.value.id} with c0 :: _ => {t} | [] => false end)"
+        # 0 < i < len(s) - 1   for an index i >= 0 (N subtraction saturates at 0, where the test is false either way)
+        if isinstance(test, ast.Compare) and len(test.ops) == 2 and all(isinstance(o, ast.Lt) for o in test.ops) \
+                and isinstance(test.left, ast.Constant) and test.left.value == 0 and isinstance(test.comparators[0], ast.Name) \
+                and env.get(test.comparators[0].id) == "idx" and ast.unparse(test.comparators[1]).startswith("len(") \
+                and ast.unparse(test.comparators[1]).endswith(") - 1") and isinstance(test.comparators[1], ast.BinOp) \
+                and isinstance(test.comparators[1].left, ast.Call) and len(test.comparators[1].left.args) == 1:
+            a, ta = self.expr(test.comparators[1].left.args[0], env)
+            if ta == "str":
+                i = test.comparators[0].id
+                return f"((0 <? {i}) && ({i} <? len {a} - 1))"
+        if isinstance(test, ast.Compare) and len(test.ops) == 1 and isinstance(test.ops[0], ast.In) and isinstance(test.left, ast.Name) \
+                and env.get(test.left.id) == "str" and isinstance(test.comparators[0], ast.Tuple) \
+                and all(isinstance(x, ast.Constant) and isinstance(x.value, str) for x in test.comparators[0].elts):
+            return "(" + " || ".join(f"str_eqb {test.left.id} {lit(x.value)}" for x in test.comparators[0].elts) + ")"
+        if isinstance(test, ast.Compare) and len(test.ops) == 1 and isinstance(test.ops[0], ast.Eq) and isinstance(test.left, ast.Call) \
+                and ast.unparse(test.left.func) == "len" and len(test.left.args) == 1 and isinstance(test.left.args[0], ast.Name) \
+                and env.get(test.left.args[0].id) == "strs" and isinstance(test.comparators[0], ast.Constant) \
+                and isinstance(test.comparators[0].value, int):
+            return f"(Nat.eqb (length {test.left.args[0].id}) {test.comparators[0].value})"
+        if isinstance(test, ast.Compare) and len(test.ops) == 1 and isinstance(test.ops[0], (ast.Eq, ast.NotEq)) \
+                and isinstance(test.left, ast.Subscript) and isinstance(test.left.value, ast.Name) and env.get(test.left.value.id) == "strs" \
+                and ast.unparse(test.left.slice) == "0" and isinstance(test.comparators[0], ast.Constant) \
+                and test.left.value.id in getattr(self, "nonempty_checked", ()):
+            t = f"(match {test.left.value.id} with x0 :: _ => str_eqb x0 {lit(test.comparators[0].value)} | [] => false end)"
+            return t if isinstance(test.ops[0], ast.Eq) else f"(negb {t})"
+        if isinstance(test, ast.Name) and env.get(test.id) == "strs":
+            return f"(match {test.id} with [] => false | _ :: _ => true end)"
         if isinstance(test, ast.Call) and isinstance(test.func, ast.Name) and test.func.id == "isinstance" and len(test.args) == 2 \
                 and isinstance(test.args[0], ast.Name) and isinstance(test.args[1], ast.Name) and test.args[1].id == "str":
             t = env.get(test.args[0].id)
@@ -1289,6 +1386,14 @@ class ModFn(MethFn):
                 and isinstance(test.left.value, int) and isinstance(test.comparators[1].value, int):
             x = test.comparators[0].id
             return f"(Z.leb {test.left.value} {x} && Z.leb {x} {test.comparators[1].value})%bool"
+        # x and not x[0] == "c"
+        if isinstance(test, ast.BoolOp) and isinstance(test.op, ast.And) and len(test.values) == 2 and isinstance(test.values[0], ast.Name) \
+                and env.get(test.values[0].id) == "str" and isinstance(test.values[1], ast.UnaryOp) and isinstance(test.values[1].op, ast.Not) \
+                and isinstance(test.values[1].operand, ast.Compare) and len(test.values[1].operand.ops) == 1 \
+                and isinstance(test.values[1].operand.ops[0], ast.Eq) and isinstance(test.values[1].operand.left, ast.Subscript) \
+                and ast.unparse(test.values[1].operand.left.value) == test.values[0].id and ast.unparse(test.values[1].operand.left.slice) == "0":
+            ch = one_char(test.values[1].operand.comparators[0])
+            return f"(match {test.values[0].id} with c0 :: _ => negb (N.eqb c0 {ch}) | [] => false end)"
         # x and x[0] != "c"
         if isinstance(test, ast.BoolOp) and isinstance(test.op, ast.And) and len(test.values) == 2 and isinstance(test.values[0], ast.Name) \
                 and env.get(test.values[0].id) == "str" and isinstance(test.values[1], ast.Compare) and len(test.values[1].ops) == 1 \
@@ -1300,7 +1405,7 @@ class ModFn(MethFn):
         return super().cond_bool(test, env)
 
     def COQ2(self, t):
-        return {"url": "url"}.get(t) or super().COQ2(t)
+        return {"url": "url", "optidx": "option N", "idx": "N"}.get(t) or super().COQ2(t)
 
     def coerce(self, text, have, want):
         if have == "zint" and want == "optint":
@@ -1308,6 +1413,21 @@ class ModFn(MethFn):
         return super().coerce(text, have, want)
 
     def branch(self, test, env, then_k, else_k):
+        # 0 < i < ... with i = s.rfind(c): -1 (None) fails the test
+        if isinstance(test, ast.Compare) and len(test.ops) == 2 and isinstance(test.comparators[0], ast.Name) \
+                and env.get(test.comparators[0].id) == "optidx" and isinstance(test.left, ast.Constant) and test.left.value == 0 \
+                and isinstance(test.ops[0], ast.Lt):
+            i = test.comparators[0].id
+            e1 = dict(env)
+            e1[i] = "idx"
+            return f"(match {i} with None => {else_k(env)} | Some {i} => {self.branch(test, e1, then_k, else_k)} end)"
+        # "not x" on a str records that x is non-empty on the other branch
+        if isinstance(test, ast.UnaryOp) and isinstance(test.op, ast.Not) and isinstance(test.operand, ast.Name) \
+                and env.get(test.operand.id) == "str":
+            x = test.operand.id
+            e1 = dict(env)
+            e1["%nonempty:" + x] = True
+            return f"(if (negb (nonempty {x})) then {then_k(env)} else {else_k(e1)})"
         # port is not None / port is None   for the argument of with_port (None | bool | int)
         if isinstance(test, ast.Compare) and len(test.ops) == 1 and isinstance(test.left, ast.Name) \
                 and env.get(test.left.id) == "portarg" and isinstance(test.ops[0], (ast.Is, ast.IsNot)) \
@@ -1320,7 +1440,13 @@ class ModFn(MethFn):
         return super().branch(test, env, then_k, else_k)
 
     def stmts(self, body, env, rec):
-        if body and isinstance(body[0], (ast.If, ast.Assign, ast.Return)):
+        if body and isinstance(body[0], ast.Return) and isinstance(body[0].value, ast.Call) and isinstance(body[0].value.func, ast.Attribute) \
+                and isinstance(body[0].value.func.value, ast.Name) and env.get(body[0].value.func.value.id) == "url" \
+                and body[0].value.func.attr in self.methods and self.methods[body[0].value.func.attr] == self.rett and not body[0].value.keywords:
+            args = [self.expr(a, env)[0] for a in body[0].value.args]
+            return f"(gen_{body[0].value.func.attr.strip('_')} {body[0].value.func.value.id} " + " ".join(args) + ")"
+        if body and isinstance(body[0], (ast.If, ast.Assign, ast.Return)) and not (
+                isinstance(body[0], ast.Assign) and isinstance(body[0].targets[0], ast.Subscript)):
             node = body[0].test if isinstance(body[0], ast.If) else body[0].value
             names = [n for n in (self.unguarded(node, env) if node is not None else []) if n not in getattr(self, "nonempty_checked", ())]
             if names:
@@ -1336,6 +1462,26 @@ class ModFn(MethFn):
                 for n in names:
                     inner = f"(match {n} with [] => Err OtherError | _ :: _ => {inner} end)"
                 return inner
+        # list mutation on a local list of str: xs.append(e) / xs[-1] = e / xs[0] = e
+        if body and isinstance(body[0], ast.Expr) and isinstance(body[0].value, ast.Call) and isinstance(body[0].value.func, ast.Attribute) \
+                and body[0].value.func.attr == "append" and isinstance(body[0].value.func.value, ast.Name) \
+                and env.get(body[0].value.func.value.id) == "strs" and len(body[0].value.args) == 1:
+            x = body[0].value.func.value.id
+            v, tv = self.expr(body[0].value.args[0], env)
+            if tv != "str":
+                raise Untranslatable("append of " + tv)
+            return f"(let {x} : list str := {x} ++ [{v}] in {self.stmts(body[1:], env, rec)})"
+        if body and isinstance(body[0], ast.Assign) and len(body[0].targets) == 1 and isinstance(body[0].targets[0], ast.Subscript) \
+                and isinstance(body[0].targets[0].value, ast.Name) and env.get(body[0].targets[0].value.id) == "strs" \
+                and ast.unparse(body[0].targets[0].slice) in ("0", "-1"):
+            if not self.fallible:
+                raise Untranslatable("an index that may fail in a total method")
+            x = body[0].targets[0].value.id
+            v, tv = self.expr(body[0].value, env)
+            if tv != "str":
+                raise Untranslatable("store of " + tv)
+            upd = f"(removelast {x} ++ [{v}])" if ast.unparse(body[0].targets[0].slice) == "-1" else f"({v} :: tl {x})"
+            return f"(match {x} with [] => Err OtherError | _ :: _ => (let {x} : list str := {upd} in {self.stmts(body[1:], env, rec)}) end)"
         if body and isinstance(body[0], ast.If) and ast.unparse(body[0].test) == "type(url_) is not URL" and len(body[0].body) == 1 \
                 and isinstance(body[0].body[0], ast.Raise) and not body[0].orelse:
             return self.stmts(body[1:], env, rec)      # type dispatch on the argument (a URL by assumption)
@@ -1392,7 +1538,7 @@ class ModFn(MethFn):
             env[a.arg] = t
             ps.append(f"({a.arg} : {ct})")
         body = self.stmts(list(fd.body), env, {})
-        base = {"url": "url"}[self.rtype]
+        base = {"url": "url", "strs": "list str", "str": "str", "bool": "bool"}[self.rtype]
         rt = f"result ({base})" if self.fallible else base
         return f"Definition gen_{fd.name.strip('_')} {' '.join(ps)} : {rt} :=\n  {body}.", ([], self.rett)
 
@@ -1566,7 +1712,20 @@ SOURCES = [
       ("URL._origin", "(self : url) : result url", "Err OtherError", "mod", "rurl"),
       ("URL.relative", "(self : url) : result url", "Err OtherError", "mod", "rurl"),
       ("URL.parent", "(self : url) : result url", "Err OtherError", "mod", "rurl"),
-      ("URL.join", "(self url : url) : result url", "Err OtherError", "mod", "rurl")]),
+      ("URL.join", "(self url : url) : result url", "Err OtherError", "mod", "rurl"),
+      ("URL.raw_parts", "(self : url) : list str", "[]", "mod", "strs"),
+      ("URL.raw_name", "(self : url) : result str", "Err OtherError", "mod", "rstr"),
+      ("URL._with_raw_name", "(self : url) (name : str) (keep_query keep_fragment : bool) : result url", "Err OtherError", "mod", "rurl"),
+      ("URL.with_name", "(self : url) (name : str) (keep_query keep_fragment : bool) : result url", "Err OtherError", "mod", "rurl"),
+      ("URL.raw_query_string", "(self : url) : str", "[]", "mod", "str"),
+      ("URL.query_string", "(self : url) : str", "[]", "mod", "str"),
+      ("URL.raw_fragment", "(self : url) : str", "[]", "mod", "str"),
+      ("URL.fragment", "(self : url) : str", "[]", "mod", "str"),
+      ("URL.raw_path_qs", "(self : url) : str", "[]", "mod", "str"),
+      ("URL.path_qs", "(self : url) : str", "[]", "mod", "str"),
+      ("URL.parts", "(self : url) : list str", "[]", "mod", "strs"),
+      ("URL.raw_suffix", "(self : url) : result str", "Err OtherError", "mod", "rstr"),
+      ("URL.with_suffix", "(self : url) (suffix : str) (keep_query keep_fragment : bool) : result url", "Err OtherError", "mod", "rurl")]),
 ]
 
 
@@ -1598,6 +1757,7 @@ def generate_one(repo, fname, header, tables, wanted):
                 m = ModFn(tree[1], methods)
                 m.portarg = len(tree) > 2 and tree[2] == "portarg"
                 text, ty = m.translate(fds[name])
+                methods[name.split(".")[1]] = tree[1]
             elif tree and tree[0] == "meth":
                 text, ty = MethFn(tree[1], methods).translate(fds[name])
                 methods[name.split(".")[1]] = tree[1]
